@@ -1,0 +1,22 @@
+// +build verif
+
+package consensus
+
+import (
+	"github.com/LemoFoundationLtd/lemochain-core/chain/types"
+)
+
+// VerifAssembler exposes the block assembler (miner path) to the verification harness.
+func (dp *DPoVP) VerifAssembler() *BlockAssembler { return dp.assembler }
+
+// VerifValidator exposes the block validator to the verification harness.
+func (dp *DPoVP) VerifValidator() *Validator { return dp.validator }
+
+// VerifCalcGasLimit exposes the miner's gas limit strategy.
+func VerifCalcGasLimit(parent *types.Header) uint64 { return calcGasLimit(parent) }
+
+// VerifResetSigCache clears the process-wide signature cache (the harness switches node keys).
+func VerifResetSigCache() {
+	sigCache.Hash = [32]byte{}
+	sigCache.Sig = nil
+}
